@@ -4,6 +4,10 @@ import (
 	"encoding/json"
 	"fmt"
 	"math/rand/v2"
+	"os"
+	"path/filepath"
+	"sort"
+	"strings"
 
 	"github.com/bluenviron/mediacommon/v2/pkg/codecs/mpeg4audio"
 	"github.com/pion/rtp"
@@ -38,10 +42,41 @@ func unhexFrames(hx [][]string) []cu.Frame {
 	return fs
 }
 
-func replay(c *corr.Ctx) {
+func replay(c *corr.Ctx) { replayRaw(c, c.Replay, "replay") }
+
+func corpusDir(prop string) string {
+	if d := os.Getenv("VERIF_CORPUS"); d != "" {
+		return filepath.Join(d, prop)
+	}
+	return "/verif/corpus/" + prop
+}
+
+// corpusFiles runs the recorded inputs corpus/C0x/audio-*.json (replay inputs of this package or
+// of the generic driver) before anything is generated.
+func corpusFiles(c *corr.Ctx) {
+	for _, prop := range []string{"C03", "C06", "C07", "C08"} {
+		if !c.Want(prop) {
+			continue
+		}
+		files, _ := filepath.Glob(filepath.Join(corpusDir(prop), "audio-*.json"))
+		sort.Strings(files)
+		for _, f := range files {
+			raw, err := os.ReadFile(f)
+			if err != nil {
+				continue
+			}
+			if !replayRaw(c, raw, "corpus-"+strings.TrimSuffix(filepath.Base(f), ".json")) {
+				c.Note("corpus file not understood: " + f)
+			}
+			c.Dist("corpus-files")
+		}
+	}
+}
+
+func replayRaw(c *corr.Ctx, raw []byte, name string) bool {
 	var probe GroupInput
-	if json.Unmarshal(c.Replay, &probe) != nil {
-		return
+	if json.Unmarshal(raw, &probe) != nil {
+		return false
 	}
 	for _, fam := range families {
 		if fam.spec.Name != probe.Codec {
@@ -49,50 +84,65 @@ func replay(c *corr.Ctx) {
 		}
 		switch probe.Mode {
 		case "group":
-			fam.groupCase(c, probe.Params, unhexFrames(probe.Frames), "replay")
+			fam.groupCase(c, probe.Params, unhexFrames(probe.Frames), name)
 		case "groupfault":
-			fam.groupFault(c, probe.Params, unhexFrames(probe.Frames), probe.Stream, "replay")
+			fam.groupFault(c, probe.Params, unhexFrames(probe.Frames), probe.Stream, name)
 		case "hostile":
-			replayHostile(c, fam)
+			replayHostile(c, fam, raw, name)
 		default:
-			cu.Replay(c, fam.spec, c.Replay)
+			return cu.Replay(c, fam.spec, raw)
 		}
-		return
+		return true
 	}
+	return false
 }
 
 // replayHostile re-runs a recorded hostile stream with the decoder parameters it was recorded with.
-func replayHostile(c *corr.Ctx, fam *family) {
+func replayHostile(c *corr.Ctx, fam *family, raw []byte, name string) {
 	var in cu.HostileInput
-	if json.Unmarshal(c.Replay, &in) != nil {
+	if json.Unmarshal(raw, &in) != nil {
 		return
 	}
-	p := cu.EncParams{PT: 96, Max: 1450}
+	a, err := fam.mk(cu.EncParams{PT: 96, Max: 1450})
+	if err != nil {
+		return
+	}
+	inst := a.Instance
 	if fam.spec == Mpeg4Audio && len(in.Extra) == 3 {
-		// find an SSRC that maps to the recorded bit lengths
-		for ssrc := uint32(0); ssrc < 1<<24; ssrc++ {
-			sl, il, dl := m4Params(ssrc)
-			if fmt.Sprint(sl) == in.Extra[0] && fmt.Sprint(il) == in.Extra[1] && fmt.Sprint(dl) == in.Extra[2] {
-				p.SSRC = ssrc
+		var sl, il, dl int
+		fmt.Sscan(in.Extra[0], &sl)
+		fmt.Sscan(in.Extra[1], &il)
+		fmt.Sscan(in.Extra[2], &dl)
+		inst = &cu.Instance{PT: 96, DInitExtra: in.Extra, NewDec: func() cu.Decoder { return newM4Dec(sl, il, dl) }}
+	}
+	var pkts []*rtp.Packet
+	for _, l := range in.Pkts {
+		parts := strings.SplitN(l, ":", 4)
+		if len(parts) != 4 {
+			continue
+		}
+		var sq, ts uint32
+		var m int
+		fmt.Sscan(parts[0], &sq)
+		fmt.Sscan(parts[1], &m)
+		fmt.Sscan(parts[2], &ts)
+		pkts = append(pkts, &rtp.Packet{Header: rtp.Header{Version: 2, SequenceNumber: uint16(sq), Timestamp: ts, Marker: m == 1}, Payload: cu.Unhex(parts[3])})
+	}
+	cu.HostileStream(c, fam.spec, inst, pkts, true, name, in.Note)
+	if fam.spec.Stateful { // the slice-count measure of the family
+		dec := inst.NewDec()
+		for i, q := range pkts {
+			func() {
+				defer func() { recover() }()
+				dec.Decode(q.Clone())
+			}()
+			if sl, by := sliceCount(dec), cu.Retained(dec.State()); sl > by {
+				fam.viol(c, "C08", "retained memory stays below the format's bound (maximum frame size plus a packet)", "unbounded-slices", &in,
+					fmt.Sprintf("after packet %d the decoder keeps %d slices holding %d bytes (every kept slice must be non-empty)", i, sl, by))
 				break
 			}
 		}
 	}
-	a, err := fam.mk(p)
-	if err != nil {
-		return
-	}
-	var pkts []*rtp.Packet
-	for _, l := range in.Pkts {
-		var sq, ts uint32
-		var m int
-		var hx string
-		if n, _ := fmt.Sscanf(l, "%d:%d:%d:%s", &sq, &m, &ts, &hx); n != 4 {
-			continue
-		}
-		pkts = append(pkts, &rtp.Packet{Header: rtp.Header{Version: 2, SequenceNumber: uint16(sq), Timestamp: ts, Marker: m == 1}, Payload: cu.Unhex(hx)})
-	}
-	cu.HostileStream(c, fam.spec, a.Instance, pkts, true, "replay", in.Note)
 }
 
 // Run is the domain entry point.
@@ -102,6 +152,7 @@ func Run(c *corr.Ctx) {
 		replay(c)
 		return
 	}
+	corpusFiles(c)
 	corpus(c)
 	if c.Want("C07") {
 		adtsSniffCorpus(c)
@@ -113,13 +164,14 @@ func Run(c *corr.Ctx) {
 		sweeps(c)
 	}
 	if c.Want("C08") {
-		adtsCases(c, c.N(60, 6000))
+		adtsCases(c, c.N(60, 3000))
+		growCases(c)
 	}
 	rg := c.Rng
 	for _, fam := range families {
 		s := fam.spec
 		if c.Want("C03") || c.Want("C06") {
-			for i := 0; i < c.N(250, 25000); i++ {
+			for i := 0; i < c.N(200, 8000); i++ {
 				p := pickParams(rg, s)
 				a, err := fam.mk(p)
 				if err != nil {
@@ -133,7 +185,7 @@ func Run(c *corr.Ctx) {
 			}
 		}
 		if c.Want("C07") && s.Stateful {
-			for i := 0; i < c.N(300, 30000); i++ {
+			for i := 0; i < c.N(150, 8000); i++ {
 				fam.groupFault(c, pickParams(rg, s), nil, nil, fmt.Sprintf("%s-gfault-%d", s.Name, i))
 			}
 		}
